@@ -16,7 +16,7 @@ import (
 	"verif/harness/lib/srv"
 )
 
-const ruleText = "rapid state machine per shard (own name space /tN, own live H.264+AAC streams carrying a per-path marker, own users) against one in-process server with auth enabled: histories of 6..15 steps over {save user (create/update, +-password, +-admin, pull/push from 10 patterns, through POST /api/v1/users or auth.Save), delete user, login (right/wrong password), refresh (good / superseded / access token as refresh)} interleaved with access attempts (credential: good | none | empty | refresh-as-access | superseded | garbage | spoofed internal header; RTSP: good | none | wrong password | the password an update replaced | stale nonce | Basic | unknown user) x path x entry point {RTSP/TCP play, publish (fresh path or replacing a live stream), path switch, user switch; ws-rtsp play, URL switch, publish, announce-then-play, upgrade URL with a .ts/.flv/.m3u8 suffix; WSP control+data (own / own with a suffixed upgrade URL / foreign / other-path channel); HTTP-FLV; ws-flv; HLS playlist; HLS segment; the HTTP-side play entries again with a non-canonical spelling of the path written to the socket as is (detour directory + dot-dot segments, single-dot and empty segments, dots and slashes literal or percent-encoded, upper case, trailing blank; GET/POST/OPTIONS, CONNECT for what the mux would redirect), aimed at users whose right covers the detour directory only; 16 management API calls}. Oracle = reference monitor from the rights saved last (refmodel.Permits); observed = marked media bytes / registry identity / API effect. Both directions asserted. Non-trivial = attempt on a (user, action, path) whose reference decision an earlier update or delete of this history changed, or a mid-session switch, or a publish attempt through a WebSocket session; fingerprint = entry, shape, credential, paths, rights of the users involved, expected decision."
+const ruleText = "rapid state machine per shard (own name space /tN, own live H.264+AAC streams carrying a per-path marker, own users) against one in-process server with auth enabled: histories of 6..15 steps over {save user (create/update, +-password, +-admin, pull/push from 10 patterns, through POST /api/v1/users or auth.Save), delete user, login (right/wrong password), refresh (good / superseded / access token as refresh)} interleaved with access attempts (credential: good | good with a client-supplied identity header naming the administrator | none | empty | refresh-as-access | superseded | garbage | spoofed internal header; RTSP: good | none | wrong password | the password an update replaced | stale nonce | Basic | unknown user) x path x entry point {RTSP/TCP play, publish (fresh path or replacing a live stream), path switch, user switch; ws-rtsp play, URL switch, publish, announce-then-play, upgrade URL with a .ts/.flv/.m3u8 suffix; WSP control+data (own / own with a suffixed upgrade URL / foreign / other-path channel); HTTP-FLV; ws-flv; HLS playlist; HLS segment; the HTTP-side play entries again with a non-canonical spelling of the path written to the socket as is (detour directory + dot-dot segments, single-dot and empty segments, dots and slashes literal or percent-encoded, upper case, trailing blank; GET/POST/OPTIONS, CONNECT for what the mux would redirect), aimed at users whose right covers the detour directory only; 16 management API calls}. Oracle = reference monitor from the rights saved last (refmodel.Permits); observed = marked media bytes / registry identity / API effect. Both directions asserted. Non-trivial = attempt on a (user, action, path) whose reference decision an earlier update or delete of this history changed, or a mid-session switch, or an administrator's delete / delete+re-create / in-place narrowing of the user BETWEEN two requests of one RTSP-TCP, ws-rtsp or WSP connection, or a publish attempt through a WebSocket session; fingerprint = entry, shape, credential, paths, rights of the users involved, expected decision."
 
 type hist struct {
 	t     *rapid.T
@@ -60,6 +60,12 @@ func (h *hist) stepSave(u int) {
 		nu.Prev, nu.Pass = old.Pass, fmt.Sprintf("pw-%d-%d", u, h.m.passN)
 	}
 	via := rapid.SampledFrom([]string{"api", "api", "direct"}).Draw(h.t, "via")
+	h.applySave(u, nu, withPass, via)
+}
+
+// applySave performs one administrator's save of user u (through the API or the
+// user table) and installs it in the model.
+func (h *hist) applySave(u int, nu mUser, withPass bool, via string) {
 	h.note(map[string]any{"op": "save", "user": h.names[u], "pull": nu.Pull, "push": nu.Push, "admin": nu.Admin, "with_password": withPass, "via": via})
 	rec := &auth.User{Name: h.names[u], Admin: nu.Admin, PullAccess: nu.Pull, PushAccess: nu.Push}
 	if withPass {
@@ -84,7 +90,10 @@ func (h *hist) stepSave(u int) {
 }
 
 func (h *hist) stepDelete(u int) {
-	via := rapid.SampledFrom([]string{"api", "direct"}).Draw(h.t, "via")
+	h.applyDelete(u, rapid.SampledFrom([]string{"api", "direct"}).Draw(h.t, "via"))
+}
+
+func (h *hist) applyDelete(u int, via string) {
 	h.note(map[string]any{"op": "delete", "user": h.names[u], "via": via})
 	if via == "api" {
 		if st, body := h.sh.api("DELETE", "/api/v1/users/"+h.names[u], h.root, nil); st != 200 {
@@ -211,19 +220,23 @@ type attempt struct {
 	NT     []string `json:"nt,omitempty"`
 }
 
-var httpCreds = []string{"good", "good", "good", "good", "good", "none", "empty", "refresh", "superseded", "garbage", "spoof"}
+var httpCreds = []string{"good", "good", "good", "good", "good+spoof", "good+spoof", "good", "none", "empty", "refresh", "superseded", "garbage", "spoof"}
 var rtspCreds = []string{"good", "good", "good", "good", "good", "good", "none", "wrongpw", "oldpw", "oldpw", "stalenonce", "basic", "ghost"}
 
 // httpCredFor materialises a credential kind for user u. valid reports whether
 // the reference treats the caller as authenticated as u.
 func (h *hist) httpCredFor(kind string, u int) (cred httpCred, usedKind string, valid bool) {
 	tp, ok := h.ensureToken(u)
-	if !ok && (kind == "good" || kind == "refresh" || kind == "superseded") {
+	if !ok && (kind == "good" || kind == "good+spoof" || kind == "refresh" || kind == "superseded") {
 		kind = "garbage"
 	}
 	switch kind {
 	case "good":
 		return httpCred{Token: tp.A, HasToken: true}, kind, true
+	case "good+spoof":
+		// u's own valid token, plus the header the interceptors use among themselves
+		// naming the administrator: the caller is still u, whatever the header says
+		return httpCred{Token: tp.A, HasToken: true, Spoof: h.sh.rootName}, kind, true
 	case "none":
 		return httpCred{}, kind, false
 	case "empty":
@@ -1032,6 +1045,8 @@ func (h *hist) run() {
 			if !h.attemptFocused() {
 				h.attemptRTSP()
 			}
+		case "midedit":
+			h.attemptMidEdit()
 		case "rtsp":
 			h.attemptRTSP()
 		case "http":
@@ -1056,7 +1071,7 @@ func (h *hist) run() {
 	}
 }
 
-var stepKinds = []string{"focused", "focused", "rtsp", "rtsp", "http", "http", "ws", "ws", "spelled", "api", "api", "wsp", "save", "save", "save", "delete", "login", "refresh"}
+var stepKinds = []string{"focused", "midedit", "focused", "midedit", "rtsp", "rtsp", "http", "http", "ws", "ws", "spelled", "api", "api", "wsp", "save", "save", "save", "delete", "login", "refresh"}
 
 func runShard(t *testing.T, id int, quick, thorough int) {
 	sh := newShard(t, id)
